@@ -180,7 +180,8 @@ theorem state_shape_matches_source :
     Shapes.blockHandler = [("config", "BlockHandlerConfig"), ("states", "LruCache<RequestCacheKey<Endpoint>,BlockState>")] ∧
     Shapes.blockHandlerConfig = [("cache_expiry_duration", "Duration"), ("max_total_message_size", "usize")] ∧
     Shapes.requestCacheKey = [("path", "Vec<Vec<u8>>"), ("request_type_ord", "u8"), ("requester", "Option<Endpoint>")] ∧
-    Shapes.blockState = [("cached_request_payload", "Option<Vec<u8>>"), ("cached_response", "Option<Packet>"), ("last_request_block2", "Option<BlockValue>")] ∧
+    Shapes.blockState = [("cached_request_payload", "Option<Vec<u8>>"), ("cached_response", "Option<Packet>"),
+     ("cached_response_size_exponent", "Option<u8>"), ("last_request_block2", "Option<BlockValue>")] ∧
     Shapes.blockValue = [("more", "bool"), ("num", "u16"), ("size_exponent", "u8")] ∧
     Shapes.coapRequest = [("message", "Packet"), ("response", "Option<CoapResponse>"), ("source", "Option<Endpoint>")] ∧
     Shapes.coapResponse = [("message", "Packet")] ∧
